@@ -1,5 +1,6 @@
 import Proofs.Files
 import Proofs.FilesText
+import Proofs.FilesEnv
 
 /-!
 # C15 — Results on disk survive crashes and are never destroyed by a new search
@@ -346,6 +347,73 @@ theorem C15_lf_rewrite_safe_without_cr (cl : List CLine) (hne : ∀ l ∈ cl, l.
     Csv.parseFile (bytesOf lf cl) = cl.map (·.cells) :=
   parse_bytesOf_lf cl hne hcr
 
+/-! ## the environment of the process: mount layout of TMPDIR / working directory (`Model/FilesEnv.lean`) -/
+
+/-- **C15 (environment, 1).**  Every system call of every history of the protocol (whatever repairs are
+switched on) names only result files of `log_dir` itself — `results.csv`, `results.csv.tmp`, backups:
+siblings in ONE directory.  No temporary file is made anywhere else. -/
+theorem C15_protocol_stays_in_log_dir (cfg : Cfg) (s : St) (runs : List Run) (op : Op)
+    (h : Ev.sys op ∈ searchFiles cfg s runs) : opLocal op = true := by
+  have := List.all_eq_true.mp (all_evLocal_searchFiles cfg runs s) _ h
+  simpa using this
+
+/-- **C15 (environment, 2).**  Hence the mount layout — where the system temporary directory, the working
+directory or anything else outside `log_dir` is mounted — does not enter: at EVERY crash point of every
+history the directory reached in the mount layout `m` (where a `rename` across file systems fails with
+`EXDEV`) is the directory of the single-file-system model all the theorems above speak about, and every
+call succeeds or fails alike. -/
+theorem C15_mounts_irrelevant (m : Mounts) (cfg : Cfg) (s : St) (runs : List Run)
+    (p : List Ev) (hp : p <+: searchFiles cfg s runs) :
+    runOps m s.fs (sysOf p) = (execAll s p).fs ∧
+      ∀ op, Ev.sys op ∈ p → ∀ fs, stepIn m fs op = step fs op ∧ opOkIn m fs op = opOk fs op := by
+  have hl := all_evLocal_prefix hp (all_evLocal_searchFiles cfg runs s)
+  refine ⟨by rw [runOps_local m p hl, fs_execAll], ?_⟩
+  intro op hop fs
+  have : opLocal op = true := by simpa using List.all_eq_true.mp hl _ hop
+  exact ⟨stepIn_local m fs this, opOkIn_local m fs this⟩
+
+/-- **C15 (environment, 3).**  Publishing a complete file `src` (content `c`) as `results.csv` with a move
+(`shutil.move`, `os.replace`): when `src` is on `log_dir`'s file system the move is one `rename`, and at
+every crash point `results.csv` is what it was or all of `c`. -/
+theorem C15_move_same_device (m : Mounts) (src : Name) (c : Content) (sizes : List Nat) (fs : FS)
+    (hd : devOf m src = .logDev) (hs : get fs src = some c)
+    (p : List Op) (hp : p <+: moveOps m src .results c sizes) :
+    get (runOps m fs p) .results = get fs .results ∨ get (runOps m fs p) .results = some c := by
+  have hr : devOf m .results = .logDev := rfl
+  have hm : moveOps m src .results c sizes = [.rename src .results] := by simp [moveOps, hd, hr]
+  rw [hm] at hp
+  rcases List.prefix_cons_iff.mp hp with rfl | ⟨t, rfl, ht⟩
+  · exact Or.inl rfl
+  · have : t = [] := List.prefix_nil.mp ht
+    subst this
+    right
+    simp [runOps, stepIn, hd, hr, step, hs]
+
+/-- **C15 (environment, 4).**  When `src` (holding `c`) is on ANOTHER file system the `rename` fails and the move copies:
+whatever table `results.csv` held and whatever `c` is, there is a crash point (right after the destination was
+opened) at which `results.csv` exists and is EMPTY — every evaluation written so far is gone and the checker
+rejects the file for every completion / dump log; if nothing interrupts, the copy ends with exactly `c`. -/
+theorem C15_move_other_device (m : Mounts) (src : Name) (c : Content) (sizes : List Nat) (fs : FS)
+    (hd : devOf m src = .otherDev) (done dumped : List Job) :
+    (∃ p, p <+: moveOps m src .results c sizes ∧ get (runOps m fs p) .results = some [] ∧
+        visibleOk (get (runOps m fs p) .results) done dumped = false) ∧
+      get (runOps m fs (moveOps m src .results c sizes)) .results = some c := by
+  have hr : devOf m .results = .logDev := rfl
+  have hm : moveOps m src .results c sizes =
+      [.rename src .results, .openR src, .openW .results] ++ (chunk sizes c).map (Op.write .results)
+        ++ [.close .results, .close src] := by simp [moveOps, hd, hr]
+  have h3 : runOps m fs [.rename src .results, .openR src, .openW .results] = set fs .results [] := by
+    simp [runOps, stepIn, hd, hr, step]
+  constructor
+  · refine ⟨[.rename src .results, .openR src, .openW .results], ?_, ?_, ?_⟩
+    · rw [hm, List.append_assoc]; exact List.prefix_append _ _
+    · rw [h3]; simp
+    · rw [h3]; simp [visibleOk, wellFormedPrefix, wellFormed]
+  · rw [hm, runOps_append, runOps_append, h3]
+    have := get_runOps_writes m .results (chunk sizes c) (set fs .results []) [] (by simp)
+    rw [chunk_flatten] at this
+    simpa [runOps, stepIn, step] using this
+
 /-! ## non-vacuity, regressions for the repaired defects -/
 
 section examples
@@ -499,6 +567,30 @@ def lfSafeTable : List CLine :=
 example : (∀ l ∈ lfSafeTable, l.cells ≠ []) ∧
     (∀ l ∈ lfSafeTable, l.line.rewritten = true → ∀ s ∈ l.cells, '\r' ∉ s) := by decide
 example : abstract 0 (bytesOf lf lfSafeTable) = [.header true, .row j0 true, .row j1 false] := by decide +kernel
+
+/-! the environment: TMPDIR on another file system than log_dir (`tmpFile`), a sibling temporary file -/
+
+def elsewhere : Mounts := fun s => if s = "TMPDIR/results_x.csv" then .otherDev else .logDev
+def tmpFile : Name := .other "TMPDIR/results_x.csv"
+def sibling : Name := .other "log_dir/results_x.csv"
+def oldTable : Content := [.header false, .row j0 false, .row j1 false]
+def newTable : Content := extendAll oldTable
+def envDir (src : Name) : FS := [(.results, oldTable), (src, newTable)]
+
+example : devOf elsewhere tmpFile = .otherDev ∧ devOf elsewhere sibling = .logDev ∧
+    get (envDir tmpFile) tmpFile = some newTable := by decide
+-- the protocol's own calls are local, a move from TMPDIR is not
+example : (sysOf (searchFiles fixed emptyDir demoRuns)).all opLocal = true := by decide +kernel
+example : (moveOps elsewhere tmpFile .results newTable []).all opLocal = false := by decide
+-- same file system: every crash point of the move shows the old or the new table, both accepted
+example : ((scanOps elsewhere (envDir sibling) (moveOps elsewhere sibling .results newTable [2])).map
+    (fun fs => visibleOk (get fs .results) [j0, j1] [j0, j1])) = [true, true] := by decide +kernel
+-- other file system: rename fails, open, open+truncate (EMPTY), two chunks, close, close
+example : ((scanOps elsewhere (envDir tmpFile) (moveOps elsewhere tmpFile .results newTable [2])).map
+    (fun fs => visibleOk (get fs .results) [j0, j1] [j0, j1])) =
+    [true, true, true, false, false, true, true, true] := by decide +kernel
+example : opOkIn elsewhere (envDir tmpFile) (.rename tmpFile .results) = false ∧
+    opOkIn elsewhere (envDir sibling) (.rename sibling .results) = true := by decide
 
 end examples
 
